@@ -20,6 +20,7 @@ import copy
 import importlib.util
 import json
 import os
+import sys
 
 from .. import tlc, tlaval
 from ..core import ROOT, TOOLKIT
@@ -447,7 +448,84 @@ def run(ctx):
     ctx.evaluations = len(scripts)
     app_sessions(ctx)
     long_run(ctx, mod)
+    wire_stage(ctx)
     threads_stage(ctx)
+
+
+def wire_stage(ctx):
+    """Clock thread (the indications of one tick) against socket thread (the reply to a control
+    command) inside the link code both use (udp_link.py): every line-level interleaving with up to
+    two pre-emptions; what leaves each socket is judged by LinkWire.tla."""
+    import threading
+    sys.path.insert(0, os.path.join(ROOT, "harness", "py"))
+    import baton
+    import faketrx_drv as F
+    sim = F.Sim([])
+    g = sim.app.clck_gen
+    g.ind_period = 1
+    for t, (rx, tx) in ((0, (890200, 935200)), (1, (935200, 890200))):
+        sim.cmd(t, b"CMD RXTUNE %d\0" % rx)
+        sim.cmd(t, b"CMD TXTUNE %d\0" % tx)
+        sim.cmd(t, b"CMD POWERON\0")
+    nlinks = len(g.clck_links)
+    cmds = [b"CMD SETPOWER 5\0", b"CMD FOOBAR 1 2\0", b"CMD NOMTXPOWER\0"]
+    traces = []
+
+    def one(cmd, first, k1, k2):
+        fn = g.clck_src
+        log = []
+        bt = baton.Baton(("udp_link.py",))
+        sim.net.take()
+
+        def hook(sock, data, addr):
+            i, kind = sim.sock2.get(id(sock), (-1, "?"))
+            log.append(dict(e="wire", kind=kind if kind in ("clck", "ctrl", "data") else "other", raw=list(data)[:64]))
+        sim.net.hook = hook
+
+        def sock():
+            sim.trx[1].ctrl_if.sock.feed(cmd, ("127.0.0.1", 1))
+            sim.trx[1].ctrl_if.handle_rx()
+
+        def clk():
+            g.send_clck_ind()
+
+        def named(f, name):
+            def run():
+                threading.current_thread().name = name
+                f()
+            return run
+        try:
+            steps = bt.run({"sock": named(sock, "sock"), "clk": named(clk, "clk")}, first, k1, k2)
+        finally:
+            sim.net.hook = None
+        for name, err in bt.errors.items():
+            ctx.violation("C09/wire/exception-%s" % type(err).__name__, "thread %s raised %r" % (name, err),
+                          dict(cmd=cmd.decode("latin1"), schedule=[first, k1, k2]))
+        log.append(dict(e="done"))
+        return dict(cfg=dict(fn=fn, links=nlinks), ev=log), steps
+
+    nsched = 0
+    for cmd in (cmds if ctx.thorough else cmds[:1]):
+        _, st = one(cmd, "sock", 10 ** 6, 0)
+        ns, nc = st.get("sock", 0), st.get("clk", 0)
+        for first, (a, b) in (("sock", (ns, nc)), ("clk", (nc, ns))):
+            for k1 in range(0, a + 1):
+                for k2 in range(0, b + 1):
+                    tr, _ = one(cmd, first, k1, k2)
+                    tr["id"] = "w%d-%s-%d-%d" % (nsched, first, k1, k2)
+                    traces.append(tr)
+                    nsched += 1
+    res, stats = tlc.validate_traces("LinkWire.tla", "LinkWire.cfg", traces, scratch=ctx.scratch, chunk="balance", parallel=3)
+    ctx.add_tv("TV LinkWire (reply vs clock indications inside udp_link.py, line-level schedules)", stats, len(traces))
+    byid = {t["id"]: t for t in traces}
+    for v in res:
+        if v["reached"] != v["n"]:
+            t = byid[v["id"]]
+            e = t["ev"][v["reached"]]
+            ctx.violation("C09/%s" % (v["tag"] or "no-action-enabled").replace("C09.", ""),
+                          "schedule %s: %s; event %s" % (v["id"], v["tag"], {k: (bytes(x).decode("latin1") if k == "raw" else x) for k, x in e.items()}),
+                          dict(schedule=v["id"], events=[{k: (bytes(x).decode("latin1") if k == "raw" else x) for k, x in ev.items()} for ev in t["ev"]]))
+    ctx.extra["link_schedules"] = nsched
 
 
 def long_run(ctx, mod):
